@@ -37,6 +37,8 @@ const (
 	OpSetParam
 	OpRespWriteHeader
 	OpYield
+	OpCopy
+	OpSub
 )
 
 // Op is one step of a handler script.
@@ -93,6 +95,10 @@ func (o Op) String() string {
 		return fmt.Sprintf("Resp.WriteHeader(%d)", o.N)
 	case OpYield:
 		return "yield"
+	case OpCopy:
+		return "Copy"
+	case OpSub:
+		return fmt.Sprintf("SubRequest(%s %q)", o.S, o.S2)
 	}
 	return "?"
 }
@@ -149,8 +155,10 @@ type Ctx interface {
 	WrapResp()
 	WithReqCtxValue(k, v string)
 	ReqCtxValue(k string) any
-	ObserveAborted() bool // false: IsAborted is not recorded for this request (K1 exclusion)
-	Yield()               // scheduling point (deterministic scheduler of C03); no-op in the model
+	ObserveAborted() bool           // false: IsAborted is not recorded for this request (K1 exclusion)
+	Yield()                         // scheduling point (deterministic scheduler of C03); no-op in the model
+	CopyForLater()                  // c.Copy() kept beyond the request (for a background job); no-op in the model
+	Sub(method, path string) string // a nested request served by the same router from inside a handler
 }
 
 // Trace is the event list of one request.
@@ -207,6 +215,10 @@ func paramsText(m map[string]string) string {
 		ss = append(ss, fmt.Sprintf("%s=%q", k, m[k]))
 	}
 	return strings.Join(ss, ",")
+}
+
+func indent(s string) string {
+	return "      | " + strings.ReplaceAll(s, "\n", "\n      | ")
 }
 
 // ErrScript is the error AddError records.
@@ -284,6 +296,10 @@ func Run(s *Script, c Ctx, tr *Trace) {
 			c.SetParam(o.S, o.S2)
 		case OpYield:
 			c.Yield()
+		case OpCopy:
+			c.CopyForLater()
+		case OpSub:
+			tr.Add("  %s nested request %s %q ->\n%s", s.Name, o.S, o.S2, indent(c.Sub(o.S, o.S2)))
 		}
 	}
 	if !s.Silent {
@@ -311,6 +327,21 @@ type RCtx struct {
 	C     *rux.Context
 	NoAbt bool
 	Y     func()
+	St    *ReqState
+	SubFn func(method, path string) string
+}
+
+func (r *RCtx) Sub(method, path string) string {
+	if r.SubFn == nil {
+		return "nested requests disabled"
+	}
+	return r.SubFn(method, path)
+}
+
+func (r *RCtx) CopyForLater() {
+	if r.St != nil {
+		r.St.AddCopy(r.C.Copy())
+	}
 }
 
 func (r *RCtx) Yield() {
@@ -362,6 +393,14 @@ type MCtx struct {
 	Tr      *Trace
 	NoAbt   bool
 	reqVals map[string]string
+	SubFn   func(method, path string) string
+}
+
+func (m *MCtx) Sub(method, path string) string {
+	if m.SubFn == nil {
+		return "nested requests disabled"
+	}
+	return m.SubFn(method, path)
 }
 
 // NewMCtx creates the model context of one request.
@@ -423,3 +462,4 @@ func (m *MCtx) ReqCtxValue(k string) any {
 }
 func (m *MCtx) ObserveAborted() bool { return !m.NoAbt }
 func (m *MCtx) Yield()               {}
+func (m *MCtx) CopyForLater()        {}
